@@ -14,6 +14,7 @@ import (
 	"github.com/anacrolix/dht/v2/bep44"
 	"github.com/anacrolix/dht/v2/exts/getput"
 	"github.com/anacrolix/dht/v2/krpc"
+	"github.com/anacrolix/log"
 
 	"verifharness/benc"
 	"verifharness/evid"
@@ -606,6 +607,11 @@ func c12client(c *evid.Ctx) {
 		if mutable {
 			saltArg = salt
 		}
+		if g%2 == 1 {
+			// Get logs every value it receives to the context's logger; a handler that dawdles makes
+			// the consumer slow, so that several nodes' values are in flight at once.
+			ctx = log.ContextWithLogger(ctx, slowLogger())
+		}
 		res, _, gerr := getput.Get(ctx, target, n.S, nil, saltArg)
 		cancel()
 		n.Quiesce(nil)
@@ -726,4 +732,15 @@ func c12concurrent(c *evid.Ctx) {
 		c.Distinct(gen.Hash64("c12conc", round, sent))
 		n.Close()
 	}
+}
+
+
+type slowHandler struct{}
+
+func (slowHandler) Handle(log.Record) { time.Sleep(300 * time.Microsecond) }
+
+func slowLogger() log.Logger {
+	l := log.NewLogger("verif-slow")
+	l.Handlers = []log.Handler{slowHandler{}}
+	return l.WithFilterLevel(log.Debug)
 }
